@@ -341,6 +341,9 @@ void World::inject_can(int bus, const CanRec &c) {
     for (size_t i = 0; i < fds.size(); i++) {
         FdEnt &e = fds[i];
         if (e.kind != FdEnt::CAN || e.bus != bus || !e.bound) continue;
+        if (c.can_id & CAN_ERR_FLAG) {  // error message frames are delivered only to sockets whose error filter asks for that class
+            if (!(e.can_err_mask & c.can_id & CAN_ERR_MASK)) { count("ev.can_error_frame_filtered"); continue; }
+        }
         if (c.fd && !e.canfd_enabled) { count("ev.can_fd_frame_not_accepted"); continue; }  // classic sockets do not see FD frames
         if (e.canq.size() >= canq_cap) { count("fault.can_qdrop"); continue; }
         e.canq.push_back(c);
@@ -480,9 +483,10 @@ int __wrap_ioctl(int fd, unsigned long req, ...) {
         memcpy(name, r->ifr_name, IFNAMSIZ);
         name[IFNAMSIZ] = 0;
         int idx = 0;
-        if (!strcmp(name, "eth0")) idx = kIfEth;
-        else if (!strcmp(name, "vcan0")) idx = kIfCanA;
-        else if (!strcmp(name, "vcan1")) idx = kIfCanB;
+        // (each interface also answers to a name of the maximum length, IFNAMSIZ-1 characters)
+        if (!strcmp(name, "eth0") || !strcmp(name, "eth-backbone-01")) idx = kIfEth;
+        else if (!strcmp(name, "vcan0") || !strcmp(name, "vcan-powertrain")) idx = kIfCanA;
+        else if (!strcmp(name, "vcan1") || !strcmp(name, "vcan-body-right")) idx = kIfCanB;
         if (!idx) { errno = ENODEV; return -1; }
         r->ifr_ifindex = idx;
         return 0;
@@ -528,6 +532,8 @@ int __wrap_setsockopt(int fd, int level, int optname, const void *optval, sockle
         e->memberships.push_back(std::vector<uint8_t>(m->mr_address, m->mr_address + 6));
     } else if (level == SOL_CAN_RAW && optname == CAN_RAW_FD_FRAMES && optlen >= sizeof(int)) {
         e->canfd_enabled = *(const int *)optval != 0;
+    } else if (level == SOL_CAN_RAW && optname == CAN_RAW_ERR_FILTER && optlen >= sizeof(can_err_mask_t)) {
+        e->can_err_mask = *(const can_err_mask_t *)optval;
     } else if (level == SOL_SOCKET && optname == SO_RCVTIMEO && optlen >= sizeof(struct timeval)) {
         const struct timeval *tv = (const struct timeval *)optval;
         e->rcvtimeo_ns = (uint64_t)tv->tv_sec * 1000000000ULL + (uint64_t)tv->tv_usec * 1000ULL;
@@ -588,6 +594,8 @@ ssize_t __wrap_sendto(int fd, const void *buf, size_t len, int flags, const stru
     w.sched_point();
     FdEnt *e = w.fd(fd);
     if (!e || (e->kind != FdEnt::PACKET && e->kind != FdEnt::UDP)) { errno = EBADF; return -1; }
+    // a non-blocking send may find the transmit queue full (cooperative fault point: only programs that ask for MSG_DONTWAIT see it)
+    if ((flags & MSG_DONTWAIT) && w.rng_net.chance(0.1)) { w.count("fault.sendto_eagain"); w.log("sendto-eagain", (uint64_t)fd); errno = EAGAIN; return -1; }
     Frame f;
     f.data.assign((const uint8_t *)buf, (const uint8_t *)buf + len);
     Node &nd = w.cur_node();
